@@ -1004,6 +1004,9 @@ func (f *framer) parsePreparedMetadata() preparedMetadata {
 	}
 
 	meta.columns = cols
+	// bind markers are not flattened: a tuple-typed marker takes one value
+	// (readCol counts tuple elements for result rows, where Scan flattens them)
+	meta.actualColCount = meta.colCount
 
 	return meta
 }
